@@ -109,6 +109,11 @@ def check_stream(text, toks, full, bad, ctx):
         elif kind == 'Indent':
             if src.strip(' \t\x0c') != '' or prev_kind not in ('Newline', None, 'Dedent', 'Indent', 'Comment', 'NonLogicalNewline'):
                 return bad('INDENT_not_at_line_start_or_not_whitespace', tok=tok, text=src, prev=prev_kind)
+            # its range is the line's leading whitespace: it starts right after a line break (or at the start of the text /
+            # after a form feed) and ends where the first token of the line starts
+            before = data[:a].decode('utf-8')
+            if before and before[-1] not in '\r\n\x0c' and before.lstrip('\ufeff') != '':
+                return bad('INDENT_range_does_not_start_at_the_line_start', tok=tok, range=[a, b])
             indents += 1
         elif kind == 'Dedent':
             if a != b or prev_kind not in ('Newline', 'Dedent', 'Comment', 'NonLogicalNewline'):
